@@ -9,9 +9,11 @@ import (
 	"net"
 	"net/http"
 	"net/http/httptest"
+	"net/url"
 	"os"
 	"os/exec"
 	"path/filepath"
+	"regexp"
 	"runtime"
 	"strconv"
 	"strings"
@@ -168,6 +170,16 @@ func c11Setup() {
 	w("outside.pmtiles", "OUTSIDE:outside.pmtiles")
 	w("srv-evil/x.pmtiles", "OUTSIDE:srv-evil/x.pmtiles")
 	w("srv-evil/a.pmtiles", "OUTSIDE:srv-evil/a.pmtiles")
+	// decoys: the directories a served path would turn into if it were read as a URL (cut at '#' or '?',
+	// percent-escapes decoded) hold archives of the same names with OUTSIDE markers — a server that ends up
+	// there does not merely fail, it serves another directory
+	for i, alt := range urlMisreadings(c11Served) {
+		if strings.HasPrefix(alt, os.TempDir()) && alt != c11Served {
+			os.MkdirAll(filepath.Join(alt, "sub"), 0o755)
+			os.WriteFile(filepath.Join(alt, "a.pmtiles"), markerArchive(fmt.Sprintf("OUTSIDE:decoy%d/a.pmtiles", i)), 0o644)
+			os.WriteFile(filepath.Join(alt, "sub", "a.pmtiles"), markerArchive(fmt.Sprintf("OUTSIDE:decoy%d/sub/a.pmtiles", i)), 0o644)
+		}
+	}
 	inner, err := pmtiles.OpenBucket(context.Background(), "file://"+c11Served, "")
 	if err != nil {
 		inner = pmtiles.NewFileBucket(filepath.Join(c11Root, "cannot-open-bucket"))
@@ -180,6 +192,40 @@ func c11Setup() {
 	srv := httptest.NewServer(mux)
 	c11HTTPURL = srv.Listener.Addr().String()
 	c11CLIAddr = startServeBinary(c11Served)
+}
+
+// the documented tile path form, stated independently of the code under test (the archive part may hold any
+// byte of '!'..'_' and lower-case letters, which includes '/', '.', and digits)
+var c11TilePathRe = regexp.MustCompile("^/([!-_a-z]+)/([0-9]+)/([0-9]+)/([0-9]+)\\.([a-z]+)$")
+
+// urlMisreadings: what a local path becomes when it is (wrongly) treated as a URL
+func urlMisreadings(p string) []string {
+	seen := map[string]bool{p: true}
+	var out []string
+	add := func(q string) {
+		q = strings.TrimRight(q, "/")
+		if q != "" && !seen[q] {
+			seen[q] = true
+			out = append(out, q)
+		}
+	}
+	cuts := []string{p}
+	if i := strings.IndexAny(p, "#?"); i >= 0 {
+		cuts = append(cuts, p[:i])
+	}
+	if i := strings.Index(p, "?"); i >= 0 {
+		cuts = append(cuts, p[:i])
+	}
+	if i := strings.Index(p, "#"); i >= 0 {
+		cuts = append(cuts, p[:i])
+	}
+	for _, c := range cuts {
+		add(c)
+		if u, err := url.PathUnescape(c); err == nil {
+			add(u)
+		}
+	}
+	return out
 }
 
 // startServeBinary runs `pmtiles serve <dir>` on a free loopback port for the rest of this process's life
@@ -365,6 +411,18 @@ func (C11) Oracle(line, goOut string) string {
 	t := strings.Fields(line)
 	raw, _ := unhex(t[1])
 	p := string(raw)
+	if t[0] == "path" && !strings.HasPrefix(goOut, "tile ") {
+		// the other direction: a path of the documented form /<archive>/<z>/<x>/<y>.<ext> whose numbers fit their
+		// fields (zoom one byte, column and row 32 bits) IS a tile request
+		if m := c11TilePathRe.FindStringSubmatch(p); m != nil {
+			z, e1 := strconv.ParseUint(m[2], 10, 8)
+			_, e2 := strconv.ParseUint(m[3], 10, 32)
+			_, e3 := strconv.ParseUint(m[4], 10, 32)
+			if e1 == nil && e2 == nil && e3 == nil {
+				return fmt.Sprintf("path %q names tile %d/%s/%s of archive %q but is not recognised as a tile request (%s)", p, z, m[3], m[4], m[1], goOut)
+			}
+		}
+	}
 	if t[0] == "path" && strings.HasPrefix(goOut, "tile ") {
 		// the coordinates are the last three path segments read as plain decimal numbers
 		f := strings.Fields(goOut)
